@@ -47,15 +47,24 @@ rule "leak" salience 5 begin
   hold(got)
   probe(secret)
 end
+rule "dirty" salience 4 begin
+  secret2 = 31337
+  if secret2 { zq = 1 }
+end
 rule "other" salience 3 begin
   probe(secret)
+end
+rule "other2" salience 2 begin
+  probe2(secret2)
 end
 rule "third" salience 1 begin
   secret = 99
   zq = secret + 1
 end
 `
-	apis := map[string]interface{}{"once": once, "probe": probe, "hold": hold}
+	var probed2 int64
+	probe2 := func(v int64) { atomic.AddInt64(&probed2, 1) }
+	apis := map[string]interface{}{"once": once, "probe": probe, "hold": hold, "probe2": probe2}
 	dc := context.NewDataContext()
 	for n, v := range apis {
 		dc.Add(n, v)
@@ -70,6 +79,15 @@ end
 	if err := CompileLocked(func() error {
 		var e error
 		pool, e = engine.NewGenginePool(1, 2, engine.SortModel, text, apis)
+		return e
+	}); err != nil {
+		k.Inconclusive("leak probe text does not compile in a pool")
+		return
+	}
+	var pool4 *engine.GenginePool
+	if err := CompileLocked(func() error {
+		var e error
+		pool4, e = engine.NewGenginePool(3, 6, engine.SortModel, text, apis)
 		return e
 	}); err != nil {
 		k.Inconclusive("leak probe text does not compile in a pool")
@@ -98,6 +116,10 @@ end
 			k.Violate("local-leaks/"+label, fmt.Sprintf("%s: probe(secret) was reached %d times with values %v, but only the one execution that assigned the local itself may read it", label, len(got), got),
 				map[string]interface{}{"rule_text": text, "scenario": label})
 		}
+		if n := atomic.SwapInt64(&probed2, 0); n > 0 {
+			k.Violate("local-survives-fault/"+label, fmt.Sprintf("%s: a local assigned by a rule that then faulted (non-boolean condition) was readable by another rule execution %d time(s)", label, n),
+				map[string]interface{}{"rule_text": text, "scenario": label})
+		}
 		k.Distinct("leak", label, len(got))
 	}
 	// (1) later calls on the same engine: first call assigns, the following must not see it
@@ -113,7 +135,7 @@ end
 		eng.ExecuteMixModel(rb)
 		eng.ExecuteInverseMixModel(rb)
 		eng.ExecuteNConcurrentMConcurrent(1, 2, rb, true)
-		eng.ExecuteDAGModel(rb, [][]string{{"leak"}, {"other", "third"}})
+		eng.ExecuteDAGModel(rb, [][]string{{"leak"}, {"dirty"}, {"other", "third", "other2"}})
 	})
 	// (3) two concurrent executions of the same rule (same DAG layer)
 	round("concurrent-executions-of-one-rule", func() {
@@ -136,5 +158,25 @@ end
 		}
 		wg.Wait()
 	})
+	// (5) the first executions of freshly compiled rules, arriving together (after a hot update)
+	for rep := 0; rep < 3; rep++ {
+		if err := CompileLocked(func() error { return pool4.UpdatePooledRules(text) }); err != nil {
+			break
+		}
+		round("burst-after-hot-update", func() {
+			var wg sync.WaitGroup
+			start := make(chan struct{})
+			for i := 0; i < 6; i++ {
+				wg.Add(1)
+				go func() {
+					defer wg.Done()
+					<-start
+					pool4.ExecuteSelectedRules(map[string]interface{}{}, []string{"leak"})
+				}()
+			}
+			close(start)
+			wg.Wait()
+		})
+	}
 	time.Sleep(100 * time.Microsecond)
 }
